@@ -1932,6 +1932,21 @@ impl Sys {
         .unwrap_or_else(|p| json!({"panic": p}));
         sink.emit(json!({"t": "typed", "h": h + 1, "levels": levels, "got": got}));
     }
+    /// text remapping of a printed typed trace (canonical traces print to well-formed text)
+    fn text(&mut self, sink: &mut Sink, h: usize, levels: &Value) {
+        let Some(handle) = self.handles[h] else { return };
+        let text = crate::traces::build_trace(levels).to_string();
+        let got = guarded(std::panic::AssertUnwindSafe(|| match handle {
+            crate::handles::Handle::Mapper(m) => m.remap_stacktrace(&text).map(|s| enc::s(&s)).map_err(|e| e.to_string()),
+            crate::handles::Handle::Cache(c) => c.remap_stacktrace(&text).map(|s| enc::s(&s)).map_err(|e| e.to_string()),
+        }));
+        let got = match got {
+            Ok(Ok(v)) => v,
+            Ok(Err(e)) => json!({"error": e}),
+            Err(p) => json!({"panic": p}),
+        };
+        sink.emit(json!({"t": "text", "h": h + 1, "text": enc::s(&text), "got": got}));
+    }
     fn begin(&mut self, sink: &mut Sink, i: usize, h: usize, f: &Value) {
         let Some(handle) = self.handles[h] else { return };
         let (class, method) = (leak_str(&f["class"]), leak_str(&f["method"]));
@@ -2022,6 +2037,7 @@ fn system(sink: &mut Sink, o: &Opts) {
                     "q" => sys.query(sink, x - 1, &queries[(y - 1) % queries.len()]),
                     "sig" => sys.sig(sink, x - 1, "(Lb;[I)La;"),
                     "typed" => sys.typed(sink, x - 1, &levels),
+                    "text" => sys.text(sink, x - 1, &levels),
                     "begin" => sys.begin(sink, x - 1, y - 1, &frames[(z - 1) % frames.len()]),
                     "next" => sys.next(sink, x - 1),
                     other => panic!("unknown program step {other}"),
@@ -2080,6 +2096,10 @@ fn system(sink: &mut Sink, o: &Opts) {
                 let canonical = rng.chance(1, 2);
                 let levels = gen::typed_levels(&mut rng, &uni, canonical);
                 sys.typed(sink, a, &levels);
+            }
+            22 => {
+                let levels = gen::typed_levels(&mut rng, &uni, true);
+                sys.text(sink, a, &levels);
             }
             19 | 20 => {
                 let focus = if rng.chance(1, 3) { "params" } else { "frame" };
